@@ -31,6 +31,66 @@ theorem has_mono (r c : Repo) (f : Nat) (h : has r f = true) : has (r ++ c) f = 
 theorem has_iff (r : Repo) (f : Nat) : has r f = true ↔ ∃ m, m ∈ r ∧ m.file = f := by
   simp [has]
 
+theorem has_files (c : Repo) (f : Nat) : has c f = true ↔ f ∈ c.map (·.file) := by
+  simp [has]
+
+theorem has_anti (r c : Repo) (f : Nat) (h : has (r ++ c) f = false) : has r f = false := by
+  rw [has_append] at h
+  exact (Bool.or_eq_false_iff.1 h).1
+
+/-! ## reachability through files that are not cached -/
+
+/-- the files the active provider's imports of file `f` denote when `f` is loaded with parameters `kw` -/
+def importsOf (W : World) (kw : Params) (f : Nat) : List Nat :=
+  match W.files[f]? with
+  | some spec => (effImports W spec (some kw)).flatten
+  | none => []
+
+/-- `g` is reached from `f` along imports, every file on the way (both ends included) being absent from
+`repo0`: an independent description of the files a load starting at `f` has to create.  Files that are
+cached in `repo0` are reused as they are; their imports are not followed. -/
+inductive ReachNC (W : World) (repo0 : Repo) (kw : Params) : Nat → Nat → Prop
+  | refl {f : Nat} : has repo0 f = false → ReachNC W repo0 kw f f
+  | step {f g h : Nat} : ReachNC W repo0 kw f g → h ∈ importsOf W kw g → has repo0 h = false →
+      ReachNC W repo0 kw f h
+
+theorem ReachNC.src_new {W : World} {repo0 : Repo} {kw : Params} {f g : Nat}
+    (h : ReachNC W repo0 kw f g) : has repo0 f = false := by
+  induction h with
+  | refl hf => exact hf
+  | step _ _ _ ih => exact ih
+
+theorem ReachNC.tgt_new {W : World} {repo0 : Repo} {kw : Params} {f g : Nat}
+    (h : ReachNC W repo0 kw f g) : has repo0 g = false := by
+  cases h with
+  | refl hf => exact hf
+  | step _ _ hn => exact hn
+
+theorem ReachNC.trans {W : World} {repo0 : Repo} {kw : Params} {f g x : Nat}
+    (h1 : ReachNC W repo0 kw f g) (h2 : ReachNC W repo0 kw g x) : ReachNC W repo0 kw f x := by
+  induction h2 with
+  | refl _ => exact h1
+  | step _ hi hn ih => exact .step ih hi hn
+
+/-- fewer cached files, more to create -/
+theorem ReachNC.anti {W : World} {repo c : Repo} {kw : Params} {f g : Nat}
+    (h : ReachNC W (repo ++ c) kw f g) : ReachNC W repo kw f g := by
+  induction h with
+  | refl hf => exact .refl (has_anti repo c _ hf)
+  | step _ hi hn ih => exact .step ih hi (has_anti repo c _ hn)
+
+theorem nodup_files_append (repo c1 c2 : Repo) (h1 : (c1.map (·.file)).Nodup) (h2 : (c2.map (·.file)).Nodup)
+    (hnew : ∀ m, m ∈ c2 → has (repo ++ c1) m.file = false) : ((c1 ++ c2).map (·.file)).Nodup := by
+  rw [List.map_append, List.nodup_append]
+  refine ⟨h1, h2, ?_⟩
+  intro a ha b hb hab
+  obtain ⟨m2, hm2, e2⟩ := List.mem_map.1 hb
+  have hn := hnew m2 hm2
+  rw [has_append] at hn
+  have h3 : has c1 m2.file = true := (has_files c1 _).2 (by rw [e2, ← hab]; exact ha)
+  rw [h3] at hn
+  simp at hn
+
 /-! ## what one `internal_model_from_file` call guarantees -/
 
 /-- all effective imports of the model are in `R` -/
@@ -46,12 +106,14 @@ theorem Closed.mono {W : World} {kw : Params} {R : Repo} {m : ModelRec} (c : Rep
 /-- post-condition of a successful load of file `g` with parameters `kw` from repository `repo` -/
 def Post (W : World) (kw : Params) (repo : Repo) (g : Nat) (repo' : Repo) : Prop :=
   ∃ c, repo' = repo ++ c ∧ (∀ m, m ∈ c → m.params = some kw) ∧ has repo' g = true ∧
-    (∀ m, m ∈ c → Closed W kw repo' m) ∧ (∀ m, m ∈ c → has repo m.file = false)
+    (∀ m, m ∈ c → Closed W kw repo' m) ∧ (∀ m, m ∈ c → has repo m.file = false) ∧
+    (c.map (·.file)).Nodup ∧ (∀ m, m ∈ c → ReachNC W repo kw g m.file)
 
 /-- the same for a list of files -/
 def PostL (W : World) (kw : Params) (repo : Repo) (gs : List Nat) (repo' : Repo) : Prop :=
   ∃ c, repo' = repo ++ c ∧ (∀ m, m ∈ c → m.params = some kw) ∧ (∀ g, g ∈ gs → has repo' g = true) ∧
-    (∀ m, m ∈ c → Closed W kw repo' m) ∧ (∀ m, m ∈ c → has repo m.file = false)
+    (∀ m, m ∈ c → Closed W kw repo' m) ∧ (∀ m, m ∈ c → has repo m.file = false) ∧
+    (c.map (·.file)).Nodup ∧ (∀ m, m ∈ c → ∃ g, g ∈ gs ∧ ReachNC W repo kw g m.file)
 
 theorem loadFilesWith_post (W : World) (kw : Params) (rec : Repo → Nat → Params → Except Err Repo)
     (hrec : ∀ repo g repo', has repo g = false → rec repo g kw = .ok repo' → Post W kw repo g repo') :
@@ -62,26 +124,29 @@ theorem loadFilesWith_post (W : World) (kw : Params) (rec : Repo → Nat → Par
     intro repo repo' h
     simp only [loadFilesWith, Except.ok.injEq] at h
     subst h
-    exact ⟨[], by simp, by simp, by simp, by simp, by simp⟩
+    exact ⟨[], by simp, by simp, by simp, by simp, by simp, by simp, by simp⟩
   | cons g gs ih =>
     intro repo repo' h
     by_cases hg : has repo g = true
     · simp only [loadFilesWith, hg, if_true] at h
-      obtain ⟨c, rfl, hp, hin, hcl, hnew⟩ := ih repo repo' h
-      refine ⟨c, rfl, hp, ?_, hcl, hnew⟩
-      intro x hx
-      rcases List.mem_cons.1 hx with rfl | hx
-      · exact has_mono repo c x hg
-      · exact hin x hx
+      obtain ⟨c, rfl, hp, hin, hcl, hnew, hnd, hre⟩ := ih repo repo' h
+      refine ⟨c, rfl, hp, ?_, hcl, hnew, hnd, ?_⟩
+      · intro x hx
+        rcases List.mem_cons.1 hx with rfl | hx
+        · exact has_mono repo c x hg
+        · exact hin x hx
+      · intro m hm
+        obtain ⟨g', hg', hr'⟩ := hre m hm
+        exact ⟨g', List.mem_cons_of_mem _ hg', hr'⟩
     · have hg' : has repo g = false := by simpa using hg
       simp only [loadFilesWith, hg', Bool.false_eq_true, if_false] at h
       cases hr : rec repo g kw with
       | error e => simp [hr] at h
       | ok repo1 =>
         simp only [hr] at h
-        obtain ⟨c1, rfl, hp1, hin1, hcl1, hnew1⟩ := hrec repo g repo1 hg' hr
-        obtain ⟨c2, rfl, hp2, hin2, hcl2, hnew2⟩ := ih (repo ++ c1) repo' h
-        refine ⟨c1 ++ c2, by simp, ?_, ?_, ?_, ?_⟩
+        obtain ⟨c1, rfl, hp1, hin1, hcl1, hnew1, hnd1, hre1⟩ := hrec repo g repo1 hg' hr
+        obtain ⟨c2, rfl, hp2, hin2, hcl2, hnew2, hnd2, hre2⟩ := ih (repo ++ c1) repo' h
+        refine ⟨c1 ++ c2, by simp, ?_, ?_, ?_, ?_, ?_, ?_⟩
         · intro m hm
           rcases List.mem_append.1 hm with hm | hm
           · exact hp1 m hm
@@ -97,15 +162,20 @@ theorem loadFilesWith_post (W : World) (kw : Params) (rec : Repo → Nat → Par
         · intro m hm
           rcases List.mem_append.1 hm with hm | hm
           · exact hnew1 m hm
-          · have := hnew2 m hm
-            rw [has_append] at this
-            simpa using (Bool.or_eq_false_iff.1 this).1
+          · exact has_anti repo c1 _ (hnew2 m hm)
+        · exact nodup_files_append repo c1 c2 hnd1 hnd2 hnew2
+        · intro m hm
+          rcases List.mem_append.1 hm with hm | hm
+          · exact ⟨g, List.mem_cons_self, hre1 m hm⟩
+          · obtain ⟨g', hg2, hr'⟩ := hre2 m hm
+            exact ⟨g', List.mem_cons_of_mem _ hg2, hr'.anti⟩
 
 /-- post-condition for a list of import statements -/
 def PostS (W : World) (kw : Params) (repo : Repo) (ss : List (List Nat)) (repo' : Repo) : Prop :=
   ∃ c, repo' = repo ++ c ∧ (∀ m, m ∈ c → m.params = some kw) ∧
     (∀ fs, fs ∈ ss → ∀ g, g ∈ fs → has repo' g = true) ∧
-    (∀ m, m ∈ c → Closed W kw repo' m) ∧ (∀ m, m ∈ c → has repo m.file = false)
+    (∀ m, m ∈ c → Closed W kw repo' m) ∧ (∀ m, m ∈ c → has repo m.file = false) ∧
+    (c.map (·.file)).Nodup ∧ (∀ m, m ∈ c → ∃ fs, fs ∈ ss ∧ ∃ g, g ∈ fs ∧ ReachNC W repo kw g m.file)
 
 theorem loadStmtsWith_post (W : World) (kw : Params) (rec : Repo → Nat → Params → Except Err Repo)
     (hrec : ∀ repo g repo', has repo g = false → rec repo g kw = .ok repo' → Post W kw repo g repo') :
@@ -116,7 +186,7 @@ theorem loadStmtsWith_post (W : World) (kw : Params) (rec : Repo → Nat → Par
     intro repo repo' h
     simp only [loadStmtsWith, Except.ok.injEq] at h
     subst h
-    exact ⟨[], by simp, by simp, by simp, by simp, by simp⟩
+    exact ⟨[], by simp, by simp, by simp, by simp, by simp, by simp, by simp⟩
   | cons fs rest ih =>
     intro repo repo' h
     by_cases hfs : fs = []
@@ -126,9 +196,9 @@ theorem loadStmtsWith_post (W : World) (kw : Params) (rec : Repo → Nat → Par
       | error e => simp [hr] at h
       | ok repo1 =>
         simp only [hr] at h
-        obtain ⟨c1, rfl, hp1, hin1, hcl1, hnew1⟩ := loadFilesWith_post W kw rec hrec fs repo repo1 hr
-        obtain ⟨c2, rfl, hp2, hin2, hcl2, hnew2⟩ := ih (repo ++ c1) repo' h
-        refine ⟨c1 ++ c2, by simp, ?_, ?_, ?_, ?_⟩
+        obtain ⟨c1, rfl, hp1, hin1, hcl1, hnew1, hnd1, hre1⟩ := loadFilesWith_post W kw rec hrec fs repo repo1 hr
+        obtain ⟨c2, rfl, hp2, hin2, hcl2, hnew2, hnd2, hre2⟩ := ih (repo ++ c1) repo' h
+        refine ⟨c1 ++ c2, by simp, ?_, ?_, ?_, ?_, ?_, ?_⟩
         · intro m hm
           rcases List.mem_append.1 hm with hm | hm
           · exact hp1 m hm
@@ -144,9 +214,14 @@ theorem loadStmtsWith_post (W : World) (kw : Params) (rec : Repo → Nat → Par
         · intro m hm
           rcases List.mem_append.1 hm with hm | hm
           · exact hnew1 m hm
-          · have := hnew2 m hm
-            rw [has_append] at this
-            simpa using (Bool.or_eq_false_iff.1 this).1
+          · exact has_anti repo c1 _ (hnew2 m hm)
+        · exact nodup_files_append repo c1 c2 hnd1 hnd2 hnew2
+        · intro m hm
+          rcases List.mem_append.1 hm with hm | hm
+          · obtain ⟨g, hg, hr'⟩ := hre1 m hm
+            exact ⟨fs, List.mem_cons_self, g, hg, hr'⟩
+          · obtain ⟨xs, hxs, g, hg, hr'⟩ := hre2 m hm
+            exact ⟨xs, List.mem_cons_of_mem _ hxs, g, hg, hr'.anti⟩
 
 /-- **Invariant of the load recursion**: whatever the fuel, a successful load of a
 file that was not in the repository appends models that all carry `kw`, contains
@@ -167,10 +242,15 @@ theorem loadFile_post (W : World) (kw : Params) :
       by_cases hb : spec.broken = true
       · simp [hb] at h
       · simp only [hb, Bool.false_eq_true, if_false] at h
-        obtain ⟨c, hrepo, hp, hin, hcl, hnew⟩ :=
+        obtain ⟨c, hrepo, hp, hin, hcl, hnew, hnd, hre⟩ :=
           loadStmtsWith_post W kw (loadFile W fuel) ih _ _ _ h
         subst hrepo
-        refine ⟨{ file := f, params := some kw } :: c, by simp, ?_, ?_, ?_, ?_⟩
+        have hnotf : ∀ m, m ∈ c → m.file ≠ f := by
+          intro m hm e
+          have := hnew m hm
+          rw [has_append, e] at this
+          simp [has] at this
+        refine ⟨{ file := f, params := some kw } :: c, by simp, ?_, ?_, ?_, ?_, ?_, ?_⟩
         · intro m hm
           rcases List.mem_cons.1 hm with rfl | hm
           · rfl
@@ -183,9 +263,21 @@ theorem loadFile_post (W : World) (kw : Params) :
         · intro m hm
           rcases List.mem_cons.1 hm with rfl | hm
           · exact hf
-          · have := hnew m hm
-            rw [has_append] at this
-            simpa using (Bool.or_eq_false_iff.1 this).1
+          · exact has_anti repo _ _ (hnew m hm)
+        · rw [List.map_cons, List.nodup_cons]
+          refine ⟨?_, hnd⟩
+          intro hmem
+          obtain ⟨m, hm, e⟩ := List.mem_map.1 hmem
+          exact hnotf m hm e
+        · intro m hm
+          rcases List.mem_cons.1 hm with rfl | hm
+          · exact .refl hf
+          · obtain ⟨fs, hfs, g, hg, hr⟩ := hre m hm
+            have hr' : ReachNC W repo kw g m.file := hr.anti
+            have himp : g ∈ importsOf W kw f := by
+              simp only [importsOf, hs, List.mem_flatten]
+              exact ⟨fs, hfs, hg⟩
+            exact (ReachNC.step (.refl hf) himp hr'.src_new).trans hr'
 
 /-! ## the load machine never reports an unknown parameter -/
 
@@ -197,15 +289,14 @@ theorem loadFilesWith_noParamErr (rec : Repo → Nat → Params → Except Err R
   | nil => intro repo p k h; simp [loadFilesWith] at h
   | cons g gs ih =>
     intro repo p k h
-    by_cases hg : has repo g = true
-    · simp only [loadFilesWith, hg, if_true] at h
-      exact ih repo p k h
-    · have hg' : has repo g = false := by simpa using hg
-      simp only [loadFilesWith, hg', Bool.false_eq_true, if_false] at h
-      cases p with
-      | none => simp at h
-      | some mp =>
-        simp only at h
+    cases p with
+    | none => simp [loadFilesWith] at h
+    | some mp =>
+      by_cases hg : has repo g = true
+      · simp only [loadFilesWith, hg, if_true] at h
+        exact ih repo (some mp) k h
+      · have hg' : has repo g = false := by simpa using hg
+        simp only [loadFilesWith, hg', Bool.false_eq_true, if_false] at h
         cases hr : rec repo g mp with
         | error e =>
           simp only [hr, Except.error.injEq] at h
@@ -249,6 +340,80 @@ theorem loadFile_noParamErr (W : World) :
       · simp [hb] at h
       · simp only [hb, Bool.false_eq_true, if_false] at h
         exact loadStmtsWith_noParamErr (loadFile W fuel) ih _ _ _ k h
+
+/-! ## which errors the load recursion can end with -/
+
+/-- the errors of the recursion below `internal_model_from_file`: a file that does not parse, an
+import that denotes nothing, (model artefacts:) a file id outside the world, no fuel -/
+def Err.Local (e : Err) : Prop :=
+  e = .fuel ∨ (∃ g, e = .noFile g) ∨ (∃ g, e = .syntax g) ∨ e = .enoent
+
+theorem loadFilesWith_errs (rec : Repo → Nat → Params → Except Err Repo)
+    (hrec : ∀ repo g mp e, rec repo g mp = .error e → e.Local) :
+    ∀ gs repo mp e, loadFilesWith rec repo gs (some mp) = .error e → e.Local := by
+  intro gs
+  induction gs with
+  | nil => intro repo mp e h; simp [loadFilesWith] at h
+  | cons g gs ih =>
+    intro repo mp e h
+    by_cases hg : has repo g = true
+    · simp only [loadFilesWith, hg, if_true] at h
+      exact ih repo mp e h
+    · have hg' : has repo g = false := by simpa using hg
+      simp only [loadFilesWith, hg', Bool.false_eq_true, if_false] at h
+      cases hr : rec repo g mp with
+      | error e' =>
+        simp only [hr, Except.error.injEq] at h
+        exact h ▸ hrec repo g mp e' hr
+      | ok repo1 =>
+        simp only [hr] at h
+        exact ih repo1 mp e h
+
+theorem loadStmtsWith_errs (rec : Repo → Nat → Params → Except Err Repo)
+    (hrec : ∀ repo g mp e, rec repo g mp = .error e → e.Local) :
+    ∀ ss repo mp e, loadStmtsWith rec repo ss (some mp) = .error e → e.Local := by
+  intro ss
+  induction ss with
+  | nil => intro repo mp e h; simp [loadStmtsWith] at h
+  | cons fs rest ih =>
+    intro repo mp e h
+    by_cases hfs : fs = []
+    · simp only [loadStmtsWith, hfs, if_true, Except.error.injEq] at h
+      exact h ▸ Or.inr (Or.inr (Or.inr rfl))
+    · simp only [loadStmtsWith, hfs, if_false] at h
+      cases hr : loadFilesWith rec repo fs (some mp) with
+      | error e' =>
+        simp only [hr, Except.error.injEq] at h
+        exact h ▸ loadFilesWith_errs rec hrec fs repo mp e' hr
+      | ok repo1 =>
+        simp only [hr] at h
+        exact ih repo1 mp e h
+
+/-- the recursion ends with one of four errors only — in particular never with the
+unknown-parameter error and never with the failed `assert model_params is not None` of `load_model`:
+every model that imports has its `_tx_model_params` set before its imports are followed -/
+theorem loadFile_errs (W : World) :
+    ∀ fuel repo f mp e, loadFile W fuel repo f mp = .error e → e.Local := by
+  intro fuel
+  induction fuel with
+  | zero =>
+    intro repo f mp e h
+    simp only [loadFile, Except.error.injEq] at h
+    exact h ▸ Or.inl rfl
+  | succ fuel ih =>
+    intro repo f mp e h
+    simp only [loadFile] at h
+    cases hs : W.files[f]? with
+    | none =>
+      simp only [hs, Except.error.injEq] at h
+      exact h ▸ Or.inr (Or.inl ⟨f, rfl⟩)
+    | some spec =>
+      simp only [hs] at h
+      by_cases hb : spec.broken = true
+      · simp only [hb, if_true, Except.error.injEq] at h
+        exact h ▸ Or.inr (Or.inr (Or.inl ⟨f, rfl⟩))
+      · simp only [hb, Bool.false_eq_true, if_false] at h
+        exact loadStmtsWith_errs (loadFile W fuel) ih _ _ _ e h
 
 end ParamsLoad
 
@@ -318,15 +483,14 @@ theorem loadFilesWith_noFuel (W : World) (n : Nat) (rec : Repo → Nat → Param
   | cons g gs ih =>
     intro repo p hv hm h
     have hvs : ∀ x, x ∈ gs → x < W.files.length := fun x hx => hv x (by simp [hx])
-    by_cases hg : has repo g = true
-    · simp only [loadFilesWith, hg, if_true] at h
-      exact ih repo p hvs hm h
-    · have hg' : has repo g = false := by simpa using hg
-      simp only [loadFilesWith, hg', Bool.false_eq_true, if_false] at h
-      cases p with
-      | none => simp at h
-      | some mp =>
-        simp only at h
+    cases p with
+    | none => simp [loadFilesWith] at h
+    | some mp =>
+      by_cases hg : has repo g = true
+      · simp only [loadFilesWith, hg, if_true] at h
+        exact ih repo (some mp) hvs hm h
+      · have hg' : has repo g = false := by simpa using hg
+        simp only [loadFilesWith, hg', Bool.false_eq_true, if_false] at h
         cases hr : rec repo g mp with
         | error e =>
           simp only [hr, Except.error.injEq] at h
@@ -344,15 +508,14 @@ theorem loadFilesWith_ext (rec : Repo → Nat → Params → Except Err Repo)
   | nil => intro repo p repo' h; simp only [loadFilesWith, Except.ok.injEq] at h; exact ⟨[], by simp [h]⟩
   | cons g gs ih =>
     intro repo p repo' h
-    by_cases hg : has repo g = true
-    · simp only [loadFilesWith, hg, if_true] at h
-      exact ih repo p repo' h
-    · have hg' : has repo g = false := by simpa using hg
-      simp only [loadFilesWith, hg', Bool.false_eq_true, if_false] at h
-      cases p with
-      | none => simp at h
-      | some mp =>
-        simp only at h
+    cases p with
+    | none => simp [loadFilesWith] at h
+    | some mp =>
+      by_cases hg : has repo g = true
+      · simp only [loadFilesWith, hg, if_true] at h
+        exact ih repo (some mp) repo' h
+      · have hg' : has repo g = false := by simpa using hg
+        simp only [loadFilesWith, hg', Bool.false_eq_true, if_false] at h
         cases hr : rec repo g mp with
         | error e => simp [hr] at h
         | ok repo1 =>
@@ -434,5 +597,100 @@ theorem loadFile_noFuel (W : World) (hW : W.WF) :
         intro repo g mp' repo' hg hr
         obtain ⟨c, hc, _⟩ := loadFile_post W mp' n repo g repo' hg hr
         exact ⟨c, hc⟩
+
+end ParamsLoad
+
+/-! ## more fuel changes nothing once the fuel was enough -/
+namespace ParamsLoad
+
+theorem loadFilesWith_more (rec rec' : Repo → Nat → Params → Except Err Repo)
+    (h : ∀ repo g mp, rec repo g mp ≠ .error .fuel → rec' repo g mp = rec repo g mp) :
+    ∀ gs repo p, loadFilesWith rec repo gs p ≠ .error .fuel →
+      loadFilesWith rec' repo gs p = loadFilesWith rec repo gs p := by
+  intro gs
+  induction gs with
+  | nil => intro repo p _; rfl
+  | cons g gs ih =>
+    intro repo p hne
+    cases p with
+    | none => rfl
+    | some mp =>
+      by_cases hg : has repo g = true
+      · simp only [loadFilesWith, hg, if_true] at hne ⊢
+        exact ih repo (some mp) hne
+      · have hg' : has repo g = false := by simpa using hg
+        simp only [loadFilesWith, hg', Bool.false_eq_true, if_false] at hne ⊢
+        cases hr : rec repo g mp with
+        | error e =>
+          simp only [hr] at hne
+          have := h repo g mp (by rw [hr]; exact hne)
+          rw [this, hr]
+        | ok repo1 =>
+          simp only [hr] at hne
+          have := h repo g mp (by rw [hr]; simp)
+          rw [this, hr]
+          exact ih repo1 (some mp) hne
+
+theorem loadStmtsWith_more (rec rec' : Repo → Nat → Params → Except Err Repo)
+    (h : ∀ repo g mp, rec repo g mp ≠ .error .fuel → rec' repo g mp = rec repo g mp) :
+    ∀ ss repo p, loadStmtsWith rec repo ss p ≠ .error .fuel →
+      loadStmtsWith rec' repo ss p = loadStmtsWith rec repo ss p := by
+  intro ss
+  induction ss with
+  | nil => intro repo p _; rfl
+  | cons fs rest ih =>
+    intro repo p hne
+    by_cases hfs : fs = []
+    · simp [loadStmtsWith, hfs]
+    · simp only [loadStmtsWith, hfs, if_false] at hne ⊢
+      cases hr : loadFilesWith rec repo fs p with
+      | error e =>
+        simp only [hr] at hne
+        rw [loadFilesWith_more rec rec' h fs repo p (by rw [hr]; exact hne), hr]
+      | ok repo1 =>
+        simp only [hr] at hne
+        rw [loadFilesWith_more rec rec' h fs repo p (by rw [hr]; simp), hr]
+        exact ih repo1 p hne
+
+theorem loadFile_succ_eq (W : World) (fuel : Nat) (repo : Repo) (f : Nat) (mp : Params) :
+    loadFile W (fuel + 1) repo f mp =
+      match W.files[f]? with
+      | none => .error (.noFile f)
+      | some spec =>
+        if spec.broken then .error (.syntax f)
+        else loadStmtsWith (loadFile W fuel) (repo ++ [{ file := f, params := some mp }])
+          (effImports W spec (some mp)) (some mp) := rfl
+
+theorem loadFile_succ (W : World) :
+    ∀ fuel repo f mp, loadFile W fuel repo f mp ≠ .error .fuel →
+      loadFile W (fuel + 1) repo f mp = loadFile W fuel repo f mp := by
+  intro fuel
+  induction fuel with
+  | zero => intro repo f mp hne; exact absurd rfl hne
+  | succ n ih =>
+    intro repo f mp hne
+    rw [loadFile_succ_eq W n repo f mp] at hne
+    rw [loadFile_succ_eq W (n + 1) repo f mp, loadFile_succ_eq W n repo f mp]
+    cases hs : W.files[f]? with
+    | none => rfl
+    | some spec =>
+      simp only [hs] at hne ⊢
+      by_cases hb : spec.broken = true
+      · simp [hb]
+      · simp only [hb, Bool.false_eq_true, if_false] at hne ⊢
+        exact loadStmtsWith_more (loadFile W n) (loadFile W (n + 1)) ih _ _ _ hne
+
+theorem loadFile_more (W : World) (n m : Nat) (hnm : n ≤ m) (repo : Repo) (f : Nat) (mp : Params)
+    (hne : loadFile W n repo f mp ≠ .error .fuel) : loadFile W m repo f mp = loadFile W n repo f mp := by
+  induction m with
+  | zero =>
+    have : n = 0 := by omega
+    subst this; rfl
+  | succ m ih =>
+    by_cases h : n = m + 1
+    · subst h; rfl
+    · have hle : n ≤ m := by omega
+      have e := ih hle
+      rw [loadFile_succ W m repo f mp (by rw [e]; exact hne), e]
 
 end ParamsLoad
